@@ -433,6 +433,8 @@ def _obligations(tier, seed):
             pats = [pats[0]] + rng.sample(pats[1:], min(3, len(pats) - 1))
         for fl_ in pats:
             nm = f"abstract/sk{i}/{eg.fname(fl_)}"
+            if any(nm == n for n, _ in obs):
+                continue          # the sampled pairs of disabled components may repeat
             obs.append((nm, ob_abstract(sk, fl_, nm)))
     for i, sk in enumerate(REG_SKS):
         for j, combo in enumerate(COMBOS):
